@@ -54,6 +54,9 @@ func ErrCantHandleEvidence(codespace sdk.CodespaceType) sdk.Error {
 func ErrMinimumStake(codespace sdk.CodespaceType) sdk.Error {
 	return sdk.NewError(codespace, CodeMinimumStake, "validator isn't staking above the minimum")
 }
+func ErrStakeTooLarge(codespace sdk.CodespaceType) sdk.Error {
+	return sdk.NewError(codespace, CodeInvalidInput, "validator can't stake, stake amount does not fit 64 bits")
+}
 func ErrMinimumUnstake(codespace sdk.CodespaceType) sdk.Error {
 	return sdk.NewError(codespace, CodeMinimumUnstake, "validator trying to begin unstaking has less than the minimum stake")
 }
